@@ -33,6 +33,7 @@ SYMBOL_POOLS = [
 ]
 POW_EXPONENTS = (2, 3, -1, 0, 1, -2, 0.5, -1.5, 2.0)
 ALL_VIAS = ["str", "bytes", "pathlike", "handle"]
+CHEAP_EXP = {"X", "Y", "Z", "I", "H"}
 
 
 # ---------------------------------------------------------------- comparator
@@ -197,8 +198,8 @@ def _cheap_to_evaluate(G, gate):
     while hasattr(g, "wrapped_gate"):
         if isinstance(g, G.Power) and (not isinstance(g.exponent, int) or abs(g.exponent) > 3):
             return False
-        if isinstance(g, G.Exponential) and (g.num_qubits > 1 or g.params or type(g.wrapped_gate) is not G.MatrixFactoryGate):
-            return False
+        if isinstance(g, G.Exponential) and not (type(g.wrapped_gate) is G.MatrixFactoryGate and g.wrapped_gate.name in CHEAP_EXP):
+            return False  # sympy's Matrix.exp() takes minutes on anything with irrational or float entries (T, RX(0.3), ...)
         g = g.wrapped_gate
     return True
 
